@@ -57,15 +57,15 @@ def static_gate():
     return {"harness": "build of emmylua_code_analysis with verif-hooks failed:\n" + err[-2000:]}
 
 
-def run_one(seed, rate, threads, variant):
+def run_one(seed, rate, threads, variant, mode=0):
     flags = f"{BASE_FLAGS} -Zmiri-seed={seed} -Zmiri-preemption-rate={rate}"
     e = env()
     e["MIRIFLAGS"] = flags
     t0 = time.time()
-    p = subprocess.run(["cargo", "+nightly", "miri", "run", "--offline", "--", str(threads), str(variant)],
+    p = subprocess.run(["cargo", "+nightly", "miri", "run", "--offline", "--", str(threads), str(variant), str(mode)],
                        cwd=CRATE, env=e, capture_output=True, text=True)
     out = p.stdout + "\n" + p.stderr
-    res = {"seed": seed, "rate": rate, "threads": threads, "variant": variant, "wall_s": round(time.time() - t0, 1), "flags": flags}
+    res = {"seed": seed, "rate": rate, "threads": threads, "variant": variant, "mode": mode, "wall_s": round(time.time() - t0, 1), "flags": flags}
     if "Data race detected" in out:
         import re
         m = re.search(r"Data race detected[^\n]*", out)
@@ -81,7 +81,11 @@ def run_one(seed, rate, threads, variant):
         res["detail"] = m.group(0) if m else "UB"
     elif "MISMATCH" in out:
         res["class"] = "C38:concurrent-result-differs-from-sequential"
-        res["detail"] = [l for l in out.splitlines() if "MISMATCH" in l][0]
+        lines = out.splitlines()
+        i = [k for k, l in enumerate(lines) if "MISMATCH" in l][0]
+        res["detail"] = " | ".join(l.strip() for l in lines[i:i + 3])[:400]
+    elif "WORKLOAD-BLIND" in out:
+        res["harness"] = "workload blind spot: " + [l for l in out.splitlines() if "WORKLOAD-BLIND" in l][0]
     elif "C38-RUN" in out and "equal=true" in out and p.returncode == 0:
         res["ok"] = True
         res["line"] = [l for l in out.splitlines() if l.startswith("C38-RUN")][0]
@@ -98,7 +102,7 @@ def write_replay(v):
     os.makedirs(d, exist_ok=True)
     path = os.path.join(d, hashlib.sha1(v["class"].encode()).hexdigest()[:16] + ".json")
     json.dump({"property": "C38", "engine": "E-MIRI", "violation_class": v["class"], "detail": v.get("detail", ""),
-               "spec": {k: v.get(k) for k in ("seed", "rate", "threads", "variant", "flags")}}, open(path, "w"), indent=1)
+               "spec": {k: v.get(k) for k in ("seed", "rate", "threads", "variant", "mode", "flags")}}, open(path, "w"), indent=1)
     return path
 
 
@@ -121,12 +125,19 @@ def check():
         n = int(arg("--seeds", "36"))
         for i in range(n):
             s = splitmix(base * 1000003 + i) % (1 << 31)
-            plans.append((s, ["0.01", "0.1", "0.5"][i % 3], 3 + (i % 2), i % 3))
+            plans.append((s, ["0.01", "0.1", "0.5"][i % 3], 3 + (i % 2), i % 3, 0))
+        # cheap lookup-only runs: many more schedules of the index read paths (cold first uses overlap)
+        for i in range(int(arg("--lookup-seeds", "96"))):
+            s = splitmix(base * 7000003 + i) % (1 << 31)
+            plans.append((s, ["0.02", "0.1", "0.3", "0.6"][i % 4], 2 + (i % 3), i % 3, 1))
     else:
-        n = int(arg("--seeds", "3"))
+        n = int(arg("--seeds", "2"))
         for i in range(n):
             s = splitmix(base * 1000003 + i) % (1 << 31)
-            plans.append((s, ["0.1", "0.5"][i % 2], 3, i % 2))
+            plans.append((s, ["0.1", "0.5"][i % 2], 3, i % 2, 0))
+        for i in range(int(arg("--lookup-seeds", "6"))):
+            s = splitmix(base * 7000003 + i) % (1 << 31)
+            plans.append((s, ["0.02", "0.1", "0.3", "0.6"][i % 4], 2 + (i % 3), i % 2, 1))
     if not gate:
         workers = int(os.environ.get("VERIF_WORKERS", "8"))
         # the first run also compiles the crate for Miri; the others then run in parallel
@@ -159,14 +170,15 @@ def check():
             print(f"  class: {v['class']}")
             print(f"  detail: {v.get('detail', '')}")
     ok_runs = [r for r in runs if r.get("ok")]
-    distinct = len({(r["seed"], r["rate"], r["threads"], r["variant"]) for r in runs})
+    distinct = len({(r["seed"], r["rate"], r["threads"], r["variant"], r.get("mode", 0)) for r in runs})
     ev = {
         "property_id": "C38", "tier": tier, "seed": base, "level": "exploration",
         "coverage": {
             "evaluations": len(runs) + 1,
             "distinct_nontrivial": max(distinct, 0) + 1,
-            "rule": "one evaluation = one execution of the miri-c38 program (index a 3-file workspace, compute diagnostics and per-token semantic info sequentially, then from 3-4 threads concurrently on one Arc<EmmyLuaAnalysis>) under Miri with one (scheduler seed, preemption rate, thread count, workspace variant); plus one evaluation for the compile-time Send+Sync gate; non-trivial = >=3 threads really interleaved by Miri's scheduler; distinct = distinct (seed, rate, threads, variant)",
-            "samples": [{k: r.get(k) for k in ("seed", "rate", "threads", "variant", "wall_s", "line")} for r in runs[:3]] or [{"static_gate": "failed"}],
+            "rule": "one evaluation = one execution of the miri-c38 program (index a 4-file workspace twice: on the first copy compute the results sequentially, on the second from 2-4 threads concurrently on one Arc<EmmyLuaAnalysis>, so that the concurrent readers meet every lazily filled structure cold; mode 0 = diagnostics + per-token semantic info of every file, mode 1 = index lookups only: exact / fuzzy / missing module resolution, type declarations, super and sub types, members, globals, references) under Miri with one (scheduler seed, preemption rate, thread count, workspace variant, mode); plus one evaluation for the compile-time Send+Sync gate; non-trivial = >=2 threads really interleaved by Miri's scheduler; distinct = distinct (seed, rate, threads, variant, mode)",
+            "runs_by_mode": {"mode0_full_queries": len([r for r in runs if r.get("mode", 0) == 0]), "mode1_index_lookups": len([r for r in runs if r.get("mode", 0) == 1])},
+            "samples": [{k: r.get(k) for k in ("seed", "rate", "threads", "variant", "mode", "wall_s", "line")} for r in (runs[:2] + runs[-2:])] or [{"static_gate": "failed"}],
             "static_gate": "passed: LuaCompilation, LuaDiagnostic, DbIndex, Vfs, Emmyrc and all 14 indexes are Send + Sync without the unsafe impl" if not gate else "FAILED",
             "miri_runs_ok": len(ok_runs),
             "scheduler_seeds": [r["seed"] for r in runs],
@@ -198,7 +210,7 @@ def replay():
             return 1
         print("REPLAY-CLEAN")
         return 0
-    r = run_one(s["seed"], s["rate"], s["threads"], s["variant"])
+    r = run_one(s["seed"], s["rate"], s["threads"], s["variant"], s.get("mode", 0))
     if r.get("class") == v["violation_class"]:
         print(f"REPLAY-OK class={r['class']} {r.get('detail', '')}")
         print(f"VIOLATION property=C38 replay={f}")
